@@ -56,8 +56,10 @@ func (c *compiler) ProcessForInStat(s ast.ForInStat) {
 	c.DeclareLocal(loopSRegName, sReg)
 	c.DeclareLocal(loopVarRegName, varReg)
 
+	endLbl := c.DeclareGotoLabelNoLine(breakLblName)
 	loopLbl := c.GetNewLabel()
 	must(c.EmitLabelNoLine(loopLbl))
+	c.PushContext() // Scope of the loop variables: it is left (and they are cleared) once per iteration
 
 	nameAttribs := make([]ast.NameAttrib, len(s.Vars))
 	for i, name := range s.Vars {
@@ -84,10 +86,10 @@ func (c *compiler) ProcessForInStat(s ast.ForInStat) {
 		Lsrc: var1,
 		Rsrc: testReg,
 	})
-	endLbl := c.DeclareGotoLabelNoLine(breakLblName)
 	c.emitInstr(s, ir.JumpIf{Cond: testReg, Label: endLbl})
 	c.emitInstr(s, ir.Transform{Dst: varReg, Op: ops.OpId, Src: var1})
 	c.compileBlock(s.Body)
+	c.PopContext()
 
 	c.emitInstr(s, ir.Jump{Label: loopLbl})
 
